@@ -225,6 +225,7 @@ structure Delivered where
   nlObjs : Nat
   nlAlgCons : Nat
   nlLogCons : Nat
+  nlDefVars : Nat          -- common expressions (defined variables) of the NL model
   vars : List VarInfo      -- `AddVariables`
   objs : List ObjInfo      -- `SetLinearObjective` / `SetQuadraticObjective`, by index
   cons : List DCon
@@ -320,7 +321,7 @@ def statusOk : Rec → Bool
 def recOk (g : List Rec) (d : Delivered) : Rec → Bool
   | .comment => true
   | .var i b _ => i < d.nVars && (b == decide (i < d.nlVars))
-  | .nlDefVar _ => true
+  | .nlDefVar i => i < d.nlDefVars
   | .nlObj i => i < d.nlObjs
   | .nlCon i l => i < d.nlAlgCons + d.nlLogCons && (l == decide (d.nlAlgCons ≤ i))
   | .obj i _ => i < d.nObjs
@@ -333,6 +334,7 @@ def recOk (g : List Rec) (d : Delivered) : Rec → Bool
 def checkGraph (g : List Rec) (d : Delivered) : Bool :=
   (List.range d.nlVars).all (fun i => hasVar g i true) &&
   (List.range d.nlObjs).all (fun i => g.contains (.nlObj i)) &&
+  (List.range d.nlDefVars).all (fun i => g.contains (.nlDefVar i)) &&
   (List.range (d.nlAlgCons + d.nlLogCons)).all (fun i => g.contains (.nlCon i (decide (d.nlAlgCons ≤ i)))) &&
   (List.range d.nVars).all (fun i => hasVar g i (decide (i < d.nlVars))) &&
   (List.range d.nObjs).all (fun i => hasObj g i) &&
@@ -375,6 +377,7 @@ def recTag : Rec → String
 def failReasons (g : List Rec) (d : Delivered) : List String :=
   (if (List.range d.nlVars).all (fun i => hasVar g i true) then [] else ["nl-var-missing"]) ++
   (if (List.range d.nlObjs).all (fun i => g.contains (.nlObj i)) then [] else ["nl-obj-missing"]) ++
+  (if (List.range d.nlDefVars).all (fun i => g.contains (.nlDefVar i)) then [] else ["nl-defvar-missing"]) ++
   (if (List.range (d.nlAlgCons + d.nlLogCons)).all (fun i => g.contains (.nlCon i (decide (d.nlAlgCons ≤ i)))) then [] else ["nl-con-missing"]) ++
   (if (List.range d.nVars).all (fun i => hasVar g i (decide (i < d.nlVars))) then [] else ["delivered-var-missing"]) ++
   (if (List.range d.nObjs).all (fun i => hasObj g i) then [] else ["delivered-obj-missing"]) ++
